@@ -29,7 +29,7 @@ ASSUMPTIONS = [
 ]
 CASES = {'quick': 16000, 'thorough': 200000}
 TIME = {'quick': 70, 'thorough': 540}
-MIN_NONTRIVIAL = {'quick': 1000, 'thorough': 8000}
+MIN_NONTRIVIAL = {'quick': 800, 'thorough': 6000}
 REQUIRED = ('replenishments', 'explicit_cards_dealt', 'unknown_cards_dealt',
             'states_checked', 'muck_moves', 'discard_moves')
 
